@@ -668,7 +668,7 @@ fn assemble(gen: Gen, profile: Option<Profile>, under_shuttle: bool, mut w: Worl
         panic,
         exit_code,
         hard_fired: w.hard_fired,
-        stalled: w.stalled || w.missing_program || w.fd_exhausted || (w.gating_fault && w.hard_fired) || w.write_faulted || w.stat_faulted || w.spawn_faulted,
+        stalled: w.stalled || w.missing_program || w.fd_exhausted || (w.gating_fault && w.hard_fired) || w.write_faulted || w.stat_faulted || w.spawn_faulted || w.env_jobs.values().any(|n| *n != 0),
         under_shuttle,
         sched_digest: w.sched_digest.0,
         diverged: w.diverged,
